@@ -36,6 +36,11 @@ import re
 
 FILES = ["clap_builder/src/parser/parser.rs", "clap_builder/src/parser/arg_matcher.rs",
          "clap_builder/src/parser/matches/matched_arg.rs", "clap_builder/src/parser/validator.rs"]
+# round 5: files reached while an error is CONSTRUCTED (the usage string of every error: Usage::create_usage_with_title; the
+# help text of a DisplayHelp error: HelpTemplate, StyledStr::wrap).  Their panic sites are modelled by C12 (Help/UsageModel.v,
+# HelpModel.v), not by the parser model; C01 only pins the list (C01_render_path_sites) so that a new site there is noticed.
+RENDER_FILES = ["clap_builder/src/output/usage.rs", "clap_builder/src/output/help_template.rs",
+                "clap_builder/src/builder/styled_str.rs"]
 COMMAND = "clap_builder/src/builder/command.rs"
 COMMAND_ROOTS = ["try_get_matches_from", "try_get_matches_from_mut", "_do_parse", "index"]
 
@@ -258,8 +263,21 @@ def collect(read):
     return rows, sorted(reach)
 
 
+def collect_render(read):
+    rows = []
+    for rel in RENDER_FILES:
+        code = drop_test_mods(blank(read(rel)))
+        fns = functions(code)
+        if not fns:
+            raise SystemExit("parse_sites.py: no functions found in " + rel)
+        short = rel.replace("clap_builder/src/", "")
+        rows += [(short, f, k, n) for (f, k, n) in sites_of(code, fns)]
+    return rows
+
+
 def gen_parse_sites(read):
     rows, reach = collect(read)
+    rrows = collect_render(read)
     if len(rows) < 20:
         raise SystemExit("parse_sites.py: implausibly few panic sites found (%d): the source shapes changed" % len(rows))
     lines = [
@@ -273,6 +291,10 @@ def gen_parse_sites(read):
         "    translators/parse_sites.py *)",
         "Definition parse_sites : list (string * string * string * N) := [",
         ";\n".join('  ("%s", "%s", "%s", %d)' % r for r in rows),
+        "].",
+        "(** the same shapes in the files reached while an error is constructed (usage string, help text): C12's models *)",
+        "Definition render_path_sites : list (string * string * string * N) := [",
+        ";\n".join('  ("%s", "%s", "%s", %d)' % r for r in rrows),
         "].",
         "(** functions of builder/command.rs taken to be reachable from the parser (name-based over-approximation) *)",
         "Definition command_fns_on_parse_path : list string := [",
